@@ -5,7 +5,12 @@ import sys
 import types
 
 TOOL = 3
-_state = {'on': False, 'total': 0, 'pops': {}, 'codes': 0}
+_state = {'on': False, 'total': 0, 'pops': {}, 'codes': 0, 'limit': None}
+
+
+class StepBudgetExceeded(BaseException):
+    """raised from the monitoring callback (a BaseException: the package's own
+    `except Exception` handlers must not swallow it)"""
 
 
 def _codes_of(code, acc):
@@ -67,6 +72,9 @@ def install():
 
     def cb(code, line):
         _state['total'] += 1
+        if _state['limit'] is not None and _state['total'] > _state['limit']:
+            _state['limit'] = None
+            raise StepBudgetExceeded()
         if line in pl and code.co_filename == lfile:
             _state['pops'][line] = _state['pops'].get(line, 0) + 1
     mon.register_callback(TOOL, mon.events.LINE, cb)
@@ -78,10 +86,15 @@ def install():
     _state['pop_lines'] = plines
 
 
-def measure(fn):
-    """-> (result of fn, total LINE events in the package, {pop line: hits})"""
+def measure(fn, limit=None):
+    """-> (result of fn, total LINE events in the package, {pop line: hits}); with [limit] the run is
+    aborted (StepBudgetExceeded) once more than that many steps have been executed"""
     install()
     _state['total'] = 0
     _state['pops'] = {}
-    res = fn()
+    _state['limit'] = limit
+    try:
+        res = fn()
+    finally:
+        _state['limit'] = None
     return res, _state['total'], dict(_state['pops'])
